@@ -97,9 +97,12 @@ def random_instance(rng, marker):
 
 def export_body(rng, marker, msgid, method="ExportIndication", params=None,
                 dtd=None, cim=None, proto=None, raw_params=None,
-                splice=None):
+                splice=None, subst=None):
     """`splice`: literal XML put in front of the other children of the
-    indication instance (a lexeme class at a converted position)"""
+    indication instance (a lexeme class at a converted position);
+    `subst`: {placeholder attribute text: literal replacement} applied to the
+    serialised message (strings the request writer of pywbem itself might
+    refuse or re-spell are written by the harness)"""
     inst = random_instance(rng, marker)
     if raw_params is None:
         if params is None:
@@ -124,6 +127,9 @@ def export_body(rng, marker, msgid, method="ExportIndication", params=None,
         m = re.search(r'<INSTANCE CLASSNAME="[^"]*">', s)
         assert m, s[:300]
         s = s[:m.end()] + splice + s[m.end():]
+    for old, new in (subst or {}).items():
+        assert s.count(old) == 1, (old, s[:400])
+        s = s.replace(old, new)
     if rng.random() < 0.5:
         s = '<?xml version="1.0" encoding="utf-8" ?>\n' + s
     return s
@@ -619,6 +625,150 @@ def make_lexeme(rng, lpos, lex, m):
     raise ValueError("lexeme position %r" % lpos)
 
 
+# ---- strings the handler compares with a NAME or echoes into its answer ----
+
+_C1 = [chr(c) for c in list(range(0x80, 0x85)) + list(range(0x86, 0xa0))]
+CHAR_CLASS = {
+    "del": ["\x7f"],
+    "c1": _C1,
+    "nel": ["\x85"],
+    "latin1": [chr(c) for c in range(0xa0, 0x100)],
+    "bmp": ["\u0100", "\u20ac", "\u4e2d", "\ud7ff", "\ue000", "\u0301",
+            "\ufeff", "\u200b"],
+    "lsep": ["\u2028", "\u2029"],
+    "fffd": ["\ufffd"],
+    "nonchar": ["\ufdd0", "\ufdef", "\U0001fffe", "\U0010ffff"],
+    "astral": ["\U00010000", "\U0001f600", "\U000e0001", "\U0010fffd"],
+}
+NAME_POS = ("msgId", "methName", "paramName", "dtdVer", "cimVer", "protoVer")
+HDR_POS = {"acceptVal": "accept", "charsetVal": "charset",
+           "ctypeVal": "ctype", "cencVal": "cenc"}
+NEW_POS = NAME_POS + tuple(HDR_POS) + ("embDepth", "refDepth")
+DEPTH = {"few": (2, 8), "tens": (20, 60), "hundreds": (200, 400),
+         "thousands": (1000, 5000)}
+
+
+def consistent(c):
+    """spec: HdrPosConsistent"""
+    d = HDR_POS.get(c.get("lpos"))
+    return d is None or c[d] == "ok"
+
+
+def lex_chartext(rng, lex, pre, post):
+    """text with character(s) of class `lex` between / around ASCII parts"""
+    ch = rng.choice(CHAR_CLASS[lex])
+    k = rng.randrange(5)
+    if k == 0:
+        return ch + pre + post
+    if k == 1:
+        return pre + post + ch
+    if k == 2:
+        return pre + ch + ch + post
+    return pre + ch + post
+
+
+def case_variant(rng, name, lex):
+    if lex == "upper":
+        return name.upper()
+    if lex == "lower":
+        return name.lower()
+    assert lex == "mixed", lex
+    for _ in range(50):
+        v = rng.choice([
+            name.swapcase(), name[:1].swapcase() + name[1:],
+            name[:-1] + name[-1:].swapcase(),
+            "".join(c.upper() if i % 2 else c.lower()
+                    for i, c in enumerate(name)),
+            "".join(rng.choice([c.lower(), c.upper()]) for c in name)])
+        if v not in (name, name.upper(), name.lower()):
+            return v
+    raise ValueError("no mixed-case variant of %r" % name)
+
+
+def xattr_ref(rng, v):
+    """attribute value, double-quoted; the characters >= U+007F literally or
+    as character references (seeded)"""
+    how = rng.choice(["lit", "hex", "dec", "mix"])
+    out = []
+    for ch in v:
+        if ch == "&":
+            out.append("&amp;")
+        elif ch == "<":
+            out.append("&lt;")
+        elif ch == '"':
+            out.append("&quot;")
+        elif ord(ch) >= 0x7f:
+            h = how if how != "mix" else rng.choice(["lit", "hex", "dec"])
+            out.append(ch if h == "lit" else "&#x%X;" % ord(ch) if h == "hex"
+                       else "&#%d;" % ord(ch))
+        else:
+            out.append(ch)
+    return '"%s"' % "".join(out)
+
+
+def nested_embedded(rng, depth, m):
+    """a string property holding `depth` levels of embedded instances"""
+    x = '<INSTANCE CLASSNAME="VTest_E"><PROPERTY NAME="K" TYPE="string">' \
+        '<VALUE>%s</VALUE></PROPERTY></INSTANCE>' % m
+    att = emb_attr_name(rng)
+    for _ in range(depth - 1):
+        x = '<INSTANCE CLASSNAME="E"><PROPERTY NAME="P" TYPE="string" ' \
+            '%s="instance"><VALUE>%s</VALUE></PROPERTY></INSTANCE>' \
+            % (att, xtext(x))
+    return '<PROPERTY NAME="Lx%s" TYPE="string" %s="instance"><VALUE>%s' \
+        '</VALUE></PROPERTY>' % (m, att, xtext(x))
+
+
+def nested_refs(rng, depth, m):
+    """a reference property whose instance path has a reference-valued key
+    whose instance path has a reference-valued key ... (`depth` levels)"""
+    x = '<INSTANCENAME CLASSNAME="VTest_E"><KEYBINDING NAME="K"><KEYVALUE>' \
+        '%s</KEYVALUE></KEYBINDING></INSTANCENAME>' % m
+    for _ in range(depth - 1):
+        x = '<INSTANCENAME CLASSNAME="E"><KEYBINDING NAME="K">' \
+            '<VALUE.REFERENCE>%s</VALUE.REFERENCE></KEYBINDING>' \
+            '</INSTANCENAME>' % x
+    return '<PROPERTY.REFERENCE NAME="Lx%s"><VALUE.REFERENCE>%s' \
+        '</VALUE.REFERENCE></PROPERTY.REFERENCE>' % (m, x)
+
+
+def make_named(rng, cls, m, msgid):
+    """body for a lexeme class at a compared / echoed string outside the
+    indication instance -> str"""
+    lpos, lex = cls["lpos"], cls["lex"]
+    ph = "VPH" + m
+    if lpos == "msgId":
+        # (concretise() chose `msgid` as a member of the class)
+        return export_body(rng, m, ph, subst={
+            'ID="%s"' % ph: "ID=" + xattr_ref(rng, msgid)})
+    if lpos == "methName":
+        if lex in CHAR_CLASS:
+            pre, post = rng.choice([("Export", "Indication"), (m, ""),
+                                    ("ExportIndication", ""), ("", "X")])
+            name = lex_chartext(rng, lex, pre, post)
+        else:
+            name = case_variant(rng, "ExportIndication", lex)
+        return export_body(rng, m, msgid, method=ph, subst={
+            'NAME="%s"' % ph: "NAME=" + xattr_ref(rng, name)})
+    if lpos == "paramName":
+        name = case_variant(rng, "NewIndication", lex)
+        return export_body(rng, m, msgid,
+                           params=[(ph, random_instance(rng, m))],
+                           subst={'NAME="%s"' % ph: "NAME=" + xattr(name)})
+    v = lex_chartext(rng, lex, rng.choice(["3.", "9", "x", ""]), m)
+    a = xattr_ref(rng, v)
+    if lpos == "dtdVer":
+        return export_body(rng, m, msgid, dtd=ph,
+                           subst={'DTDVERSION="%s"' % ph: "DTDVERSION=" + a})
+    if lpos == "cimVer":
+        return export_body(rng, m, msgid, cim=ph,
+                           subst={'CIMVERSION="%s"' % ph: "CIMVERSION=" + a})
+    if lpos == "protoVer":
+        return export_body(rng, m, msgid, proto=ph, subst={
+            'PROTOCOLVERSION="%s"' % ph: "PROTOCOLVERSION=" + a})
+    raise ValueError("position %r" % lpos)
+
+
 def expat_rejects(data):
     p = xml.parsers.expat.ParserCreate()
     try:
@@ -688,9 +838,20 @@ def make_body(rng, cls, marker, msgid):
     if cls.get("lpos", "none") != "none":
         # a lexeme class at a converted position; the body is well-formed
         # (checked with expat: the class is about the lexeme, nothing else)
-        assert b in ("validExport", "lexeme"), cls
-        g = export_body(rng, m, msgid, splice=make_lexeme(
-            rng, cls["lpos"], cls["lex"], m)).encode("utf-8")
+        if cls["lpos"] in NAME_POS:
+            g = make_named(rng, cls, m, msgid)
+        elif cls["lpos"] in HDR_POS:
+            g = export_body(rng, m, msgid)      # (the lexeme is in a header)
+        elif cls["lpos"] in ("embDepth", "refDepth"):
+            nest = nested_embedded if cls["lpos"] == "embDepth" \
+                else nested_refs
+            g = export_body(rng, m, msgid, splice=nest(
+                rng, rng.randint(*DEPTH[cls["lex"]]), m))
+        else:
+            assert b in ("validExport", "lexeme"), cls
+            g = export_body(rng, m, msgid, splice=make_lexeme(
+                rng, cls["lpos"], cls["lex"], m))
+        g = g.encode("utf-8")
         if expat_rejects(g):
             raise ValueError("lexeme body is not well-formed: %r" % (cls,))
         return g, True
@@ -822,7 +983,12 @@ def make_headers(rng, cls, marker):
         v = cls[dim]
         if v == "absent":
             continue
-        if v == "ok":
+        if v == "ok" and HDR_POS.get(cls.get("lpos")) == dim:
+            # an admissible value in another lexical case
+            val = case_variant(rng, rng.choice(
+                [x for x in oks if x.lower() == x and
+                 re.search("[a-z]", x)]), cls["lex"])
+        elif v == "ok":
             val = rng.choice(oks)
         else:
             val = rng.choice(bads)
@@ -878,6 +1044,9 @@ def concretise(rng, cls, uid):
     r.cls = dict(cls)
     r.marker = "VQ%05dK" % uid + "".join(rng.choice("ABCDEFGH") for _ in range(3))
     r.msgid = random_msgid(rng)
+    if cls.get("lpos") == "msgId":
+        r.msgid = lex_chartext(rng, cls["lex"], rng.choice(["", "a", "7-"]),
+                               rng.choice(["", "b", ":1", " z"])).strip(" ")
     body, has_id = make_body(rng, cls, r.marker, r.msgid)
     r.has_msgid = has_id
     clen, sent = make_clen(rng, cls, body)
@@ -1089,7 +1258,7 @@ class Conn:
         self.buf += d
         return d
 
-    def first(self):
+    def first(self, t_hang=T_HANG):
         """-> response | closed | waiting | hang"""
         t0 = time.time()
         blocked = 0
@@ -1106,7 +1275,7 @@ class Conn:
                         return "waiting"
                 else:
                     blocked = 0
-                if time.time() - t0 > T_HANG:
+                if time.time() - t0 > t_hang:
                     return "hang"
 
     def drain(self, limit=T_DRAIN):
